@@ -234,6 +234,13 @@ class Calls(DataModels):
             raise Unsupported('SList.%s' % name)
         if is_strlike(obj):
             return self.str_method(I, obj, name, args, kw, node)
+        if isinstance(obj, Code):
+            if not I.pure and not I.ctx.branch(obj.isname):
+                raise PyExc('AttributeError', ln, 'int has no attribute %s' % name)
+            if I.pure:
+                r = self.str_method(I, obj.name, name, args, kw, node)
+                return zand(obj.isname, r) if name in ('startswith', 'endswith') else r
+            return self.str_method(I, obj.name, name, args, kw, node)
         if isinstance(obj, set):
             if name == 'add':
                 obj.add(args[0])
@@ -392,6 +399,8 @@ class Calls(DataModels):
                 else:
                     I.ghost.pop('_G_n', None)
                 return SGen(SList(elem, n, qn))
+            if c.returns is None and any('result' in e for e in c.ensures):
+                raise Unsupported('contract %s constrains `result` but declares no `returns` shape' % c.qualname)
             res = c.returns.make(I.ctx, 'ret!' + c.qualname) if c.returns is not None else None
             for e in c.ensures:
                 I.ctx.assume(I.as_goal(I.pure_eval(e, fr, {'result': res})))
@@ -812,10 +821,27 @@ def _b_iter(M, I, args, kw, node):
     return args[0]
 
 
+class TypeOf:
+    """type(v) of a value whose python type is decided symbolically (Code)"""
+
+    def __init__(self, v):
+        self.v = v
+
+
 def _b_type(M, I, args, kw, node):
     v = args[0]
     if isinstance(v, SObj):
         return M.real_class(v.cls)
+    if isinstance(v, Code):
+        return TypeOf(v)
+    if is_intlike(v):
+        return int
+    if is_strlike(v):
+        return str
+    if isinstance(v, (SBytes, bytes)):
+        return bytes
+    if v is None:
+        return type(None)
     raise Unsupported('type()')
 
 
